@@ -834,4 +834,52 @@ Section Hold.
       + rewrite Nat.min_r by exact H. reflexivity.
     - intros _. split; try exact HokE; apply agree_on_refl.
   Qed.
+
+  (** ** The receiving node and its phantom hop *)
+
+  Notation claim_attribution := (claim_attribution ks hmac).
+  Notation local_failure := (local_failure ks hmac).
+
+  Definition phantom_hops (incoming : fkeys) (phantom : option fkeys) : list (fkeys * Z) :=
+    (incoming, 0%Z) :: match phantom with Some ph => [(ph, 0%Z)] | None => [] end.
+
+  (** claiming: the receiving node's attribution data is that of one or - for a payment received
+      through a phantom hop - two hops with zero hold time, the phantom hop's layer innermost *)
+  Lemma claim_attribution_chain incoming phantom :
+    fulfill_at_sender (phantom_hops incoming phantom) = Some (claim_attribution incoming phantom).
+  Proof. destruct phantom; reflexivity. Qed.
+
+  (** failing: likewise the failure of a payment received through a phantom hop is the failure of
+      the phantom hop re-wrapped by the real node *)
+  Lemma local_failure_chain incoming phantom code d :
+    local_failure incoming phantom code d =
+    match phantom with
+    | Some ph => failure_at_sender [(incoming, 0%Z)] ph code d 0%Z
+    | None => failure_at_sender [] incoming code d 0%Z
+    end.
+  Proof. destruct phantom; reflexivity. Qed.
+
+  Lemma fulfill_at_sender_app before rest :
+    fulfill_at_sender (before ++ rest) =
+    fold_right (fun kh a => Some (process_fulfill a (fst kh) (snd kh))) (fulfill_at_sender rest) before.
+  Proof. unfold OnionFail.fulfill_at_sender. apply fold_right_app. Qed.
+
+  (** C14, hold times of a claimed payment, including phantom receives: the hops before the
+      receiving node process what [claim_payment_internal] produced; the sender reads their hold times
+      followed by the zero hold times of the receiving node and of its phantom hop. *)
+  Theorem hold_times_claim (before : list (fkeys * Z)) incoming phantom :
+    Forall (fun kh => (0 <= snd kh < 2 ^ 32)%Z) before ->
+    exists E,
+      fold_right (fun kh a => Some (process_fulfill a (fst kh) (snd kh)))
+                 (Some (claim_attribution incoming phantom)) before = Some E /\
+      decode_fulfill (map fst before ++ map fst (phantom_hops incoming phantom)) E =
+      firstn MAX_HOPS (map snd before ++ map snd (phantom_hops incoming phantom)).
+  Proof.
+    intros Hr.
+    destruct (hold_times_fulfill (before ++ phantom_hops incoming phantom)) as (E & HE & Hd).
+    - destruct before; discriminate.
+    - apply Forall_app. split; [exact Hr|]. unfold phantom_hops. destruct phantom; repeat constructor; cbn; lia.
+    - exists E. rewrite fulfill_at_sender_app, claim_attribution_chain in HE. split; [exact HE|].
+      now rewrite !map_app in Hd.
+  Qed.
 End Hold.
